@@ -309,12 +309,20 @@ func c15SeqSetup(k connCfg, script string, reader string) func(c *fw.Ctx, name s
 						case 'l':
 							vtime.Sleep(time.Second)
 							pong()
+						case 'L':
+							// the pong comes after 6 s; this Ping's caller allows 30 s
+							vtime.Sleep(6 * time.Second)
+							pong()
 						}
 					}
 				})
 				w.GoHarness("pinger", true, func() {
 					for i := 0; i < m; i++ {
-						ctx, cancel := vctx.WithTimeout(bg, time.Second)
+						d := time.Second
+						if script[i] == 'L' {
+							d = 30 * time.Second
+						}
+						ctx, cancel := vctx.WithTimeout(bg, d)
 						errs[i] = conn.Ping(ctx)
 						cancel()
 						tick++
@@ -351,8 +359,8 @@ func c15SeqSetup(k connCfg, script string, reader string) func(c *fw.Ctx, name s
 						}
 					} else {
 						sig += "e"
-						if healthy && (script[i] == 'a' || script[i] == 'd') {
-							violate(c, w, name, "C15/answered-ping-failed/"+locus, fmt.Sprintf("script %q: Ping #%d was answered at once on a connection that is being read, all earlier pings had succeeded, yet it failed: %v", script, i+1, errs[i]))
+						if healthy && (script[i] == 'a' || script[i] == 'd' || script[i] == 'L') {
+							violate(c, w, name, "C15/answered-ping-failed/"+locus, fmt.Sprintf("script %q: Ping #%d was answered (at once; script letter L: after 6 s, within its 30 s context) on a connection that is being read, all earlier pings had succeeded, yet it failed: %v", script, i+1, errs[i]))
 							return
 						}
 						healthy = false
@@ -379,7 +387,7 @@ func c15SeqScenarios(tier string) []scenario {
 			scripts = append(scripts, cur)
 			return
 		}
-		for _, x := range "adwl" {
+		for _, x := range "adwlL" {
 			gen(cur + string(x))
 		}
 	}
